@@ -314,6 +314,13 @@ def shift_line(line: str, k: int) -> str:
     return line
 
 
+def _drv_context(text: str, pos: int):
+    """error_context of the extracted Coq model (LineCol.v)."""
+    m = _drv.ask(f"E {pos} " + cps(text))
+    line, ln, col = m.split("|")
+    return ("".join(chr(int(x)) for x in line.split(".") if x), int(ln), int(col))
+
+
 def fail_problems(b, mode, rule, text, k, r):
     """C13: position range, names, rendering, line:col of the rendered message."""
     from pest.exceptions import PestParsingError, error_context
@@ -337,8 +344,7 @@ def fail_problems(b, mode, rule, text, k, r):
         except Exception as ex:  # noqa: BLE001
             return f"str(PestParsingError) raised {type(ex).__name__}: {ex}"
         if pos >= 0:
-            import linecol_ref
-            want = linecol_ref.context(text, pos)
+            want = _drv_context(text, pos)
             got = error_context(text, pos)
             if tuple(got) != tuple(want):
                 return f"error_context({text!r},{pos}) = {got!r}, expected {want!r}"
